@@ -24,6 +24,10 @@ CLAIMED = {
             "Storages replace trial objects instead of mutating them, get_all_trials honours deepcopy=True and returns a fresh list for deepcopy=False in all five backends, Study getters return deep copies, and no client code mutates a reference obtained from a storage getter without a deep copy (locals flow-sensitively, self fields class-wide). Exhaustive over every mutation site of the scoped packages. Decides absence of in-place mutation of reader-visible objects; not user code mutating deepcopy=False results.",
             "Trusts copy.copy/deepcopy semantics; unknown call results are treated as private; storage receivers recognised by name (storage/_storage/_backend).",
             "DESIGN.md §3 C20"),
+    "C08": ("value provenance through loops, helper parameters and call sites; per-branch must-pass-through on the CFG; comparison-shape sibling table; who-may-write census",
+            "The watermark is only ever advanced to max(old, id of a trial returned by the incremental fetch issued with the entry's current watermark and unfinished set); both outcomes of is_finished() are handled; only finished trials are served from cache; get_all_trials syncs before serving and sorts by number; RDB SQL, RDB fallback and gRPC servicer filters use the same accepted comparison shapes; delete invalidates. Exhaustive over all writers of the watermark/unfinished set in both caches. Decides preservation of the cache invariant by every writer, not inter-client staleness windows.",
+            "Trusts that the backend fetch returns all trials matching the predicate; provenance depth 3.",
+            "DESIGN.md §3 C08"),
 }
 
 NOT_APPLICABLE = {
